@@ -270,6 +270,10 @@ def run(ctx):
             o = native_semantic(r[3])
             if native.failed(o):
                 rep = (r[3], str(o)[:160]); break
+            if r[1] == "violation" and "open scopes" in site:
+                depth = str((o or {}).get("symbols", "")).count("ScopeSymbolTable {")
+                if depth != 1:
+                    rep = (r[3], f"the native symbol table ends with {depth} open scopes"); break
         if rep is None:
             res.inconclusive.append(f"counterexample does not reproduce natively ({info['count']} paths): {site[:200]} e.g. `{r0[3][PLEN:]}` [{r0[4]}]")
             continue
